@@ -3,6 +3,7 @@
 (* and two larger ones.  checks/c07.py generates this module for the configurations it uses.               *)
 EXTENDS Chunks, Json
 MCConfigs == {<<w, h, tw, th>> \in (1..5) \X (1..4) \X (1..5) \X (1..4) : tw <= w /\ th <= h} \cup {<<21, 11, 8, 4>>, <<16, 8, 8, 8>>}
-Emit == i = -2 => PrintT(<<"C", ToJson([cf |-> c, n |-> NChunks(c), specs |-> [k \in 1..NChunks(c) |-> ChunkSpec(c, k - 1)],
+MCBigConfigs == {<<96, 48, 33, 25>>, <<1000, 500, 334, 251>>}
+Emit == i \in {-2, -3} => PrintT(<<"C", ToJson([cf |-> c, n |-> NChunks(c), specs |-> [k \in 1..NChunks(c) |-> ChunkSpec(c, k - 1)],
                                        bounds |-> [k \in 1..NChunks(c) |-> BoundsPi(c, k - 1)]])>>)
 ====
